@@ -91,6 +91,11 @@ def _gen_mutants(bed_name: str, quick: bool, bed) -> list[tuple]:
         seeds(W.l2cap_sig_seeds('sig'))
         out.extend(W.short_strings('sig', full2))
         out.extend(B.l2cap_frame_mutants(W.h('0a 0300'), [bed.dyn_cid]))
+        # a channel set-up in which the peer first asks for an option the victim does not implement, then asks again
+        for label, opt in (('unknown_type_10', '10 02 0000'), ('flush_timeout', '02 02 ffff'), ('qos', '03 16 00 01' + '00000000' * 5),
+                           ('extended_flow_spec', '06 10 01 01 0000 00000000 00000000 00000000'), ('extended_window', '07 02 4000'),
+                           ('unknown_type_7f_empty', '7f 00')):
+            out.append((f'l2cap.config_script|{label}', 'cfgopt', W.h(opt)))
     elif bed_name == 'sdp':
         seeds(W.sdp_seeds())
         out.extend(W.sdp_nesting_mutants(quick))
